@@ -663,6 +663,9 @@ int main(void) {
 			if (rc == KSI_OK) { KSI_AsyncHandle_setRequestCtx(h, (void *)(size_t)(tag + 1), NULL); rc = KSI_AsyncService_addRequest(as, h); }
 			if (rc == KSI_OK) { held[tag] = h; KSI_AsyncHandle_getRequestId(h, &id); } else KSI_AsyncHandle_free(h);
 			printf("R add tag=%ld rc=0x%x id=%llu\n", tag, rc, (unsigned long long)id);
+		} else if (!strcmp(tok[0], "SETCACHE")) {
+			int rc = KSI_AsyncService_setOption(as, KSI_ASYNC_OPT_REQUEST_CACHE_SIZE, (void *)(size_t)atol(tok[1]));
+			printf("R setcache rc=0x%x\n", rc);
 		} else if (!strcmp(tok[0], "ADDCONF")) {
 			/* ADDCONF <tag>: a configuration request (an aggregation / extend request carrying only an empty config payload) */
 			long tag = atol(tok[1]); KSI_AsyncHandle *h = NULL; KSI_Config *cfg = NULL; int rc;
